@@ -134,6 +134,14 @@ CLAIMED = {
    note=COMMON_NOTE + "binary64 evaluation of the weights/convolution validated to 1e-9.",
    technique="Lean 4 proof (kernel-checked rational identities lifted by linearity) + correspondence",
    design="5/C20"),
+ "C17": dict(
+   text="Lean theorems for the decision logic: the sampled operator is items[index], so registration order is part of the seed-to-result function (order_sensitivity); for the container and "
+        "iteration the source uses (REGENERATED: ordered default, sets iterated sorted) the registration order is the same under every hash seed (registration_deterministic, "
+        "user_set_deterministic), while a hash-ordered set is not (unsorted_set_depends_on_seed, the defect fixed in /repo); multiprocess evaluation = serial evaluation for every completion order "
+        "(from C19). VALIDATED, not provable: seeded SymbolicRegressor fits in child interpreters with different PYTHONHASHSEED and twice in one interpreter agree; real worker pools vs serial.",
+   note=COMMON_NOTE + "Cross-interpreter determinism of numpy/random/scipy and multiprocessing.Pool are runtime behaviour: validated by subprocess runs, never counted as discharged obligations.",
+   technique="Lean 4 proof of the decision logic over facts regenerated from source; subprocess validation of the runtime part",
+   design="5/C17"),
 }
 
 REASONS = {p: "check not built yet in this round (planned, see DESIGN.md section 11)" for p in PROPS}
